@@ -73,6 +73,7 @@ def jobs(tier, seed):
         for xs in ((2, 2), (3, 1), (1, 2)):
             out.append(('grad-%s-x%s' % (method, 'x'.join(map(str, xs))),
                         dict(kind='grad', method=method, order=2, n=int(np.prod(xs)), m=0, k=0, drive='e2e', xshape=xs)))
+    out.append(('view-maps-witness', dict(kind='views', method='all', order=0, n=4, m=0, k=0, drive='e2e')))
     out.append(('dirdiff-guard', dict(kind='guard', method='central', order=2, n=2, m=0, k=0, drive='e2e')))
     return out
 
@@ -151,6 +152,12 @@ def run_job(job, kind, method, order, n, m, k, drive, xshape=None, vshape=None):
     nd = cm.nd_mods()['nd']
     if kind == 'guard':
         return guard(job, nd)
+    if kind == 'views':
+        bad = view_failures(nd)
+        job.confirm('affine maps that return views of their argument: exact Jacobian (concrete witness runs)', not bad)
+        if bad:
+            job.violation('views', dict(key='C03:view-map:wrong-jacobian', kind='views', detail=bad[0]))
+        return
     if kind == 'dirdiff':
         return dirdiff(job, nd, method, n, xshape, vshape)
     f, names, expected, eshape = make_map(kind if kind != 'grad' else 'scalar', n, m, k)
@@ -259,6 +266,43 @@ def dirdiff(job, nd, method, n, xshape=None, vshape=None):
         job.absorb_explorer(ex)
 
 
+VIEW_MAPS = [('x', lambda x: x, lambda n: np.eye(n)),
+             ('x[::-1]', lambda x: x[::-1], lambda n: np.eye(n)[::-1]),
+             ('x[:1]', lambda x: x[:1], lambda n: np.eye(n)[:1]),
+             ('x[1:]', lambda x: x[1:], lambda n: np.eye(n)[1:]),
+             ('x.reshape(2,2)', lambda x: x.reshape(2, 2), None)]
+
+
+def view_failures(nd):
+    """CONCRETE witness runs (not solver evidence): affine maps whose value is the argument itself or a numpy view of it.
+    The symbolic maps of the other jobs always build new arrays, so a difference function that reuses one work buffer for
+    all perturbed points is invisible to them."""
+    bad = []
+    x = np.array([0.5, -0.75, 1.25, 2.0])
+    for method in cm.METHODS5:
+        for order in (2, 4):
+            for name, f, want in VIEW_MAPS:
+                if want is None and method == 'multicomplex':
+                    continue        # Bicomplex arguments have no reshape method: not an operation the class offers
+                try:
+                    with cm.quiet():
+                        J = nd.Jacobian(f, method=method, order=order)(x)
+                except Exception as e:  # noqa
+                    bad.append('Jacobian(lambda x: %s, method=%s, order=%d) raises %s: %s' % (name, method, order, type(e).__name__, e))
+                    continue
+                if want is None:
+                    W = np.zeros((2, 4, 2))
+                    for i in range(2):
+                        for l in range(2):
+                            W[i, 2 * i + l, l] = 1.0
+                else:
+                    W = want(4)
+                if np.shape(J) != W.shape or not np.allclose(J, W, rtol=1e-9, atol=1e-9):
+                    bad.append('Jacobian(lambda x: %s, method=%s, order=%d)(x) = %s, expected %s' % (
+                        name, method, order, np.array2string(np.asarray(J), precision=4).replace('\n', ' '), np.array2string(W).replace('\n', ' ')))
+    return bad
+
+
 def guard(job, nd):
     core = cm.nd_mods()['core']
     try:
@@ -281,6 +325,9 @@ def replay(cex):
     x = np.array(XPTS[:n])
     if cfg.get('xshape') is not None and kind in ('grad', 'dirdiff'):
         x = x.reshape(cfg['xshape'])
+    if kind == 'views':
+        bad = view_failures(nd)
+        return (True, bad[0]) if bad else (False, 'view maps exact')
     if kind == 'guard':
         try:
             core.directionaldiff(lambda x: x[0], [1.0, 2.0], [1.0, 2.0, 3.0])
